@@ -346,6 +346,14 @@ func (group *Group) delRtspPubSession(session *rtsp.PubSession) {
 func (group *Group) delPullSession(session base.IObject) {
 	Log.Debugf("[%s] [%s] del PullSession from group.", group.UniqueKey, session.UniqueKey())
 
+	// 注意，pull session可能并没有成功加入group（比如拉流失败，或者拉流成功前已经有其他输入流加入了），
+	// 此时只重置pull的状态，不能清理当前的输入流
+	if session != base.IObject(group.pullProxy.rtmpSession) && session != base.IObject(group.pullProxy.rtspSession) {
+		Log.Warnf("[%s] del pull session but not match. del session=%s", group.UniqueKey, session.UniqueKey())
+		group.pullProxy.isSessionPulling = false
+		return
+	}
+
 	group.resetRelayPullSession()
 	group.delIn()
 }
